@@ -200,6 +200,7 @@ type world struct {
 	// previous round is not logged again (idempotent for every log predicate)
 	compress   bool
 	idleRounds int
+	light      bool // start-up family: no goroutine lookup inside BatchWriteScheduled (the call's class comes from callObj)
 }
 
 var knownWriters sync.Map // gid -> true
@@ -291,6 +292,9 @@ var opByGid sync.Map // gid -> *opRun
 
 func (o *object) BatchWriteScheduled() bool {
 	r := !o.flag.CompareAndSwap(false, true)
+	if o.w.light {
+		return r
+	}
 	if x, ok := opByGid.Load(curGid()); ok {
 		op := x.(*opRun)
 		op.flagCalled = true
@@ -1025,6 +1029,9 @@ func main() {
 	nfault := fs.Int("fault", 0, "free-running cases over a store with an injected fault (in-process)")
 	nchild := fs.Int("child", 0, "sequential fault cases in a child process that really dies")
 	nopts := fs.Int("opts", 0, "rounds over the grid of option corner values")
+	nobjs := fs.Int("objs", 0, "cases with rich objects (several keys, Set and Delete, shared marshal buffer)")
+	nstart := fs.Int("startup", 0, "rounds of concurrent first Enqueue calls on a fresh writer")
+	startBudget := fs.Duration("startup-budget", 9*time.Second, "no further start-up round is begun after this time (at least a quarter of the rounds is run)")
 	workers := fs.Int("workers", 4, "parallel scripted cases")
 	seed := fs.Uint64("seed", 1, "seed")
 	out := fs.String("out", "cases.v", "cases file")
@@ -1035,7 +1042,7 @@ func main() {
 	rng := vx.NewRng(*seed)
 	st := vx.NewStats("fault: free-running cases / sequential child-process cases over a store whose n-th batch Commit or Batched() call fails; opts: grid of option corner values (time-out -1h..1h, batch 1/2/4/default, queue 0/1/2/default) x 5 scenario shapes, completeness at Stop; scripted: 2-7 client calls (Enqueue on 3 objects / Flush / Stop) released in scripted order, optional holds at the Enqueue hook / flag test / writer callbacks, queue 0-3, batch 1-3, timer waits; free: 1-3 producers x 1-4 Enqueue + Flush + racing Stop, timeout 1-3ms; distinct = distinct (config, item sequence); non-trivial = at least one commit and one Stop or hold")
 	cf := &vx.CasesFile{
-		Header: "From Coq Require Import List Bool ZArith.\nFrom Verif.C08_Batch Require Import Model FaultModel Corr.\nImport ListNotations.\n",
+		Header: "From Coq Require Import List Bool ZArith.\nFrom Verif.C08_Batch Require Import Model FaultModel Muts Corr.\nImport ListNotations.\n",
 		Type:   "case",
 		Footer: "Definition M := Eval vm_compute in mismatches cases.\nPrint M.\n",
 	}
@@ -1354,11 +1361,117 @@ func main() {
 			}
 		}
 	}
+	// ---- object behaviours ----
+	{
+		res := make([]objsResult, *nobjs)
+		subsR := make([]*vx.Rng, *nobjs)
+		for i := range subsR {
+			subsR[i] = rng.Fork()
+		}
+		var nextR, hangsR atomic.Int32
+		var wgr sync.WaitGroup
+		for wk := 0; wk < *workers; wk++ {
+			wgr.Add(1)
+			go func() {
+				defer wgr.Done()
+				for {
+					i := int(nextR.Add(1)) - 1
+					if i >= *nobjs {
+						return
+					}
+					if hangsR.Load() >= 3 {
+						res[i].desc = "skipped"
+						continue
+					}
+					res[i] = runObjs(subsR[i])
+					if res[i].hang != "" {
+						hangsR.Add(1)
+					}
+				}
+			}()
+		}
+		wgr.Wait()
+		for i, r := range res {
+			if r.desc == "skipped" {
+				st.Count("skipped-after-hangs")
+				continue
+			}
+			cf.Add(objsCoq(r, r.nobj))
+			st.CaseIndex = append(st.CaseIndex, map[string]any{"mode": "objs", "cfg": r.desc, "steps": r.steps, "index": i})
+			rep := map[string]any{"mode": "objs", "cfg": r.desc, "steps": r.steps, "index": i, "log": fmt.Sprint(r.log), "mutations-per-BatchWrite": fmt.Sprint(r.wmuts)}
+			if r.hang != "" {
+				rep["what"] = r.hang
+				st.Fail(rep)
+			} else if r.fail != "" {
+				rep["what"] = r.fail
+				st.Fail(rep)
+			} else if msg := judge(r.log, r.finalV, true); msg != "" {
+				rep["what"] = msg
+				st.Fail(rep)
+			}
+			st.Case(fmt.Sprint(r.desc, r.steps), len(r.wmuts) > 1)
+			st.Count("objs/cases")
+			if r.oneBatchTwice > 0 {
+				st.Count("objs/one-object-written-twice-in-one-batch")
+			}
+			if r.setThenDel > 0 {
+				st.Count("objs/key-set-then-deleted-by-two-BatchWrite-calls-of-one-batch")
+			}
+			if r.delThenSet > 0 {
+				st.Count("objs/key-deleted-then-set-by-two-BatchWrite-calls-of-one-batch")
+			}
+			if r.stopped {
+				st.Count("objs/ended-with-Stop")
+			} else {
+				st.Count("objs/ended-with-Flush(timer-never-fires)")
+			}
+		}
+	}
+	// ---- start-up: concurrent first Enqueue calls ----
+	kvstore.SetVerifYield(nil)
+	{
+		startHangs, startFails, emitted := 0, 0, 0
+		t0 := time.Now()
+		for i := 0; i < *nstart; i++ {
+			if i >= *nstart/4 && i%64 == 0 && time.Since(t0) > *startBudget {
+				st.Hist["startup/rounds-not-run(time-budget)"] += *nstart - i
+				break
+			}
+			if startHangs >= 3 {
+				st.Count("skipped-after-hangs")
+				continue
+			}
+			sub := rng.Fork()
+			log, final, desc, hang := runStartup(sub)
+			msg := hang
+			if hang != "" {
+				startHangs++
+			} else {
+				msg = judge(log, final, true)
+			}
+			st.Count("startup/rounds")
+			st.Count("startup/" + strings.Fields(desc)[1])
+			if msg != "" {
+				startFails++
+				if startFails <= 5 {
+					st.Fail(map[string]any{"mode": "startup", "what": msg, "cfg": desc, "index": i, "log": fmt.Sprint(log)})
+				} else {
+					st.Count("startup/further-failing-rounds")
+				}
+			}
+			if emitted < 40 || (msg != "" && startFails <= 5) { // the Coq side sees a sample and every reported round
+				emitted++
+				cf.Add(fmt.Sprintf("Free %s %d %s true", vx.ListOf(log, func(e event) string { return e.coq() }), len(final), storeCoq(final)))
+				st.CaseIndex = append(st.CaseIndex, map[string]any{"mode": "startup", "cfg": desc, "index": i})
+				st.Case(fmt.Sprint(desc, log), true)
+			}
+		}
+	}
 	if err := cf.Write(*out); err != nil {
 		vx.Die("write cases: %v", err)
 	}
 	if err := st.Write(*stats); err != nil {
 		vx.Die("write stats: %v", err)
 	}
-	fmt.Printf("c08: %d scripted (%d tainted retries), %d free, %d fault + %d child, %d opts rounds, %d oracle failures\n", *n, tainted, *nfree, *nfault, *nchild, *nopts, len(st.OracleFailures))
+	fmt.Printf("c08: %d scripted (%d tainted retries), %d free, %d fault + %d child, %d opts rounds, %d objs, %d startup rounds, %d oracle failures\n", *n, tainted, *nfree, *nfault, *nchild, *nopts, *nobjs, *nstart, len(st.OracleFailures))
 }
